@@ -799,3 +799,46 @@ func DefaultValidators(prefix string, stakes []int64) []ValSpec {
 	}
 	return out
 }
+
+// RunTxOnFork executes a signed transaction with baseapp's runTx semantics on the given (fork)
+// context: ValidateBasic of every message, the application's REAL ante handler chain (signature,
+// sequence and Paloma's authorisation decorators) on a cache that is kept when the ante succeeds,
+// then every message through the real MsgServiceRouter on a second cache that is kept only if all
+// messages succeed. The context is mutated in place (it is a fork anyway); nothing is committed.
+func (c *Chain) RunTxOnFork(ctx sdk.Context, txBytes []byte) (anteErr, msgErr error) {
+	defer func() {
+		if e := recover(); e != nil {
+			msgErr = fmt.Errorf("panic: %v", e) // baseapp recovers panics in runTx and fails the tx
+		}
+	}()
+	tx, err := c.App.TxConfig().TxDecoder()(txBytes)
+	if err != nil {
+		return err, nil
+	}
+	for _, m := range tx.GetMsgs() {
+		if vb, ok := m.(sdk.HasValidateBasic); ok {
+			if err := vb.ValidateBasic(); err != nil {
+				return err, nil
+			}
+		}
+	}
+	ctx = ctx.WithTxBytes(txBytes)
+	anteCtx, writeAnte := ctx.CacheContext()
+	if _, err := c.App.AnteHandler()(anteCtx, tx, false); err != nil {
+		return err, nil
+	}
+	writeAnte()
+	msgCtx, writeMsgs := ctx.CacheContext()
+	msgCtx = msgCtx.WithGasMeter(storetypes.NewInfiniteGasMeter())
+	for _, m := range tx.GetMsgs() {
+		h := c.App.MsgServiceRouter().Handler(m)
+		if h == nil {
+			return nil, fmt.Errorf("no handler for %s", sdk.MsgTypeURL(m))
+		}
+		if _, err := h(msgCtx, m); err != nil {
+			return nil, err
+		}
+	}
+	writeMsgs()
+	return nil, nil
+}
